@@ -315,6 +315,35 @@ func c08Exec(c *Sexp) Outcome {
 			}
 		}
 	}
+	// the parser is a function of the bytes at the offset: applying it again on the same reader at the same
+	// offset must give the same answer (a parser that writes into the reader's buffer fails here), and so
+	// must a sweep over every other offset followed by a third application
+	if fail == "" && !strings.HasPrefix(real, "panic=") {
+		again := func() string {
+			defer func() { recover() }()
+			n2, _, e2 := g.root.Parse(ctx, data.EmptyIntMap, parsley.Pos(pos))
+			switch {
+			case n2 != nil:
+				return "node=" + renderNode(n2)
+			case e2 != nil:
+				return "err=" + renderErr(e2)
+			}
+			return "nil"
+		}
+		if r2 := again(); r2 != real {
+			fail = fmt.Sprintf("%s applied a second time at the same offset %d of %q answered %s, the first time %s", kind, pos-off, norm, r2, real)
+		} else {
+			func() {
+				defer func() { recover() }()
+				for p := off; p <= end; p++ {
+					g.root.Parse(ctx, data.EmptyIntMap, parsley.Pos(p))
+				}
+			}()
+			if r3 := again(); r3 != real {
+				fail = fmt.Sprintf("%s at offset %d of %q answered %s after the parser had been applied at every offset of the file, %s before", kind, pos-off, norm, r3, real)
+			}
+		}
+	}
 	return Outcome{Real: real, OracleFail: fail, Nontrivial: pos > 1, Tags: tags}
 }
 
